@@ -3,6 +3,7 @@ import Driver.Sut.Ident
 import Driver.Sut.VClock
 import CrdtModel.Model.GList
 import CrdtModel.Model.List
+import CrdtModel.Spec.List
 /-! `GList<u64>` and `List<u64, u64>` (mirror of harness/src/sut/glist.rs). -/
 namespace Driver
 open Crdt
@@ -127,7 +128,8 @@ def listGenSpec (s : ListCrdt Nat Nat) (_ : Nat) (args : List String) : String :
     | _ => ""
   else ""
 
-def listOps : CrdtOps (ListCrdt Nat Nat) (ListOp Nat Nat) where
+/-- `List` without specification / freshness fields: raw, possibly ill-formed ops (type `list_raw`) -/
+def listRawOps : CrdtOps (ListCrdt Nat Nat) (ListOp Nat Nat) where
   init := ListCrdt.new
   gen := fun s a args => match args with
     | ["ins", i, v] => match i.toNat?, v.toNat? with
@@ -149,6 +151,24 @@ def listOps : CrdtOps (ListCrdt Nat Nat) (ListOp Nat Nat) where
   eq := some (fun a b => some (decide (a = b)))
   persist := some (fun s => (.ok "text", some s))
   genSpec := listGenSpec
+
+/-- C12: the knowledge `K` is inside the claimed region – the log is well-formed (`ListSpec.LogWF`, decided by `wfB`),
+`K ⊆ U` and `K` is closed under the delivery discipline (`ListSpec.Inv`, decided through `okB`) -/
+def listInvB (U K : List (ListOp Nat Nat)) : Bool :=
+  ListSpec.wfB U && K.all (fun o => U.contains o && ListSpec.okB U K o)
+
+/-- C12 (`state_eq_spec`, `read_eq_sorted_live`): the state – hence every read – computed from the knowledge list alone:
+the live inserts of `K` sorted by identifier, the per-actor largest delivered counter -/
+def listSpec (U K : List (ListOp Nat Nat)) : String :=
+  if listInvB U K then listObs (ListSpec.specState K) else ""
+
+/-- `List<u64,u64>` with the C12 specification (type `list`) -/
+def listOps : CrdtOps (ListCrdt Nat Nat) (ListOp Nat Nat) :=
+  { listRawOps with
+    spec := listSpec
+    ok := ListSpec.okB
+    opDot := fun op => op.dot.map showDot
+    elements := some (fun s => s.keys.map (showIdent dotMarker)) }
 
 /-- a `List` state from literals (model of deserialising `{"seq": [...], "clock": ...}`: later duplicates win) -/
 def parseListState (seq clock : String) : Option (ListCrdt Nat Nat) :=
@@ -174,7 +194,7 @@ def pureList (f : String) (args : List String) : Option String :=
         match op with
         | none => "nogen"
         | some op =>
-          let v := listOps.validateOp s op
+          let v := listRawOps.validateOp s op
           match s.apply? op with
           | some s' => "ok op=" ++ showListOp op ++ " v=" ++ v ++ " " ++ listObs s' ++ (if spec = "" then "" else " | " ++ spec)
           | none => "panic op=" ++ showListOp op ++ " v=" ++ v
